@@ -162,6 +162,8 @@ type Engine struct {
 	inRunCoros   bool
 	lastFired    int
 	SwitchHook   string // harness function called with the root goroutine index (-1: harness) whenever another party gets to run
+	race         *raceState
+	inAtomicAcc  bool
 	eqSt         *State // state for content comparison of byte-backed strings (map keys)
 }
 
